@@ -39,3 +39,9 @@ Theorem C06_race_unwinds_only_on_child_panic scs ops :
   scs <> [] -> In EEndX (strip (tr _ (race_world scs ops))) -> In (EAns APanic) (strip (tr _ (race_world scs ops))).
 Proof. exact (race_unwinds_only_on_child_panic scs ops). Qed.
 Print Assumptions C06_race_unwinds_only_on_child_panic.
+
+(* ... and `dropped` itself becomes true only through a drop operation or such an unwinding poll *)
+Theorem C06_hypothesis_fails_only_by_drop_or_child_panic scs ops :
+  scs <> [] -> dropped _ (race_world scs ops) = true -> In ODrop ops \/ In (EAns APanic) (strip (tr _ (race_world scs ops))).
+Proof. exact (race_dropped_means scs ops). Qed.
+Print Assumptions C06_hypothesis_fails_only_by_drop_or_child_panic.
